@@ -565,7 +565,8 @@ def cleanup_model(model: Model):
     newstats = []
     for s in model.statements:
         if isinstance(s, Assignment) and s.expression.is_symbol():
-            current[s.symbol] = s.expression
+            # NOTE: The right hand side could itself be a removed symbol
+            current[s.symbol] = s.expression.subs(current)
         else:
             n = s.subs(current)
             newstats.append(n)
